@@ -199,6 +199,95 @@ fn build_ofrags(tier: &str) -> OFrags {
     OFrags { tier: tier.to_string(), corners: corners(tier), gvs, quals, funcs }
 }
 
+/// a well-formed body of the file object g70v<var> (Annex A layout), where the variation has one
+fn file_object_template(var: u8) -> Option<Vec<u8>> {
+    let w = |v: u16| v.to_le_bytes().to_vec();
+    let mut b: Vec<u8> = Vec::new();
+    match var {
+        2 => {
+            // user name offset, size, password offset, size, authentication key, "ab", "cd"
+            for x in [12u16, 2, 14, 2] {
+                b.extend(w(x));
+            }
+            b.extend_from_slice(&[0; 4]);
+            b.extend_from_slice(b"abcd");
+        }
+        3 => {
+            // name offset, size, time(6), permissions, key(4), size(4), mode, max block, request id, "f"
+            b.extend(w(26));
+            b.extend(w(1));
+            b.extend_from_slice(&[0; 6]);
+            b.extend(w(0x1FF));
+            b.extend_from_slice(&[0; 4]);
+            b.extend_from_slice(&[0; 4]);
+            b.extend(w(1));
+            b.extend(w(100));
+            b.extend(w(7));
+            b.push(b'f');
+        }
+        4 => {
+            b.extend_from_slice(&[1, 0, 0, 0, 9, 0, 0, 0]);
+            b.extend(w(100));
+            b.extend(w(7));
+            b.push(0);
+            b.push(b't');
+        }
+        5 => b.extend_from_slice(&[1, 0, 0, 0, 0, 0, 0, 0x80, 0xAA]),
+        6 => b.extend_from_slice(&[1, 0, 0, 0, 0, 0, 0, 0x80, 0, b't']),
+        7 => {
+            // name offset, size, type, size(4), time(6), permissions, request id, "f"
+            b.extend(w(20));
+            b.extend(w(1));
+            b.extend(w(1));
+            b.extend_from_slice(&[0; 4]);
+            b.extend_from_slice(&[0; 6]);
+            b.extend(w(0x1FF));
+            b.extend(w(7));
+            b.push(b'f');
+        }
+        8 => b.extend_from_slice(b"name"),
+        _ => return None,
+    }
+    Some(b)
+}
+
+/// Free-format (qualifier 0x5B) file objects g70v<var> whose 16-bit offset / size fields take
+/// extreme values. Bodies: the well-formed object of the variation (where it has one) and zero
+/// bodies of the lengths of the fixed parts; in each, the 16-bit word at every octet offset is set
+/// to each of {0xFFFF, 0xFFF4, 0xFFF3, 0x8000, 0, the body length}; the declared object length
+/// is the body length. The unmutated bodies come first.
+fn free_format_extremes(var: u8) -> Vec<Vec<u8>> {
+    let mut bodies: Vec<Vec<u8>> = Vec::new();
+    if let Some(t) = file_object_template(var) {
+        bodies.push(t);
+    }
+    for len in [8usize, 13, 26] {
+        bodies.push(vec![0u8; len]);
+    }
+    let mut out = Vec::new();
+    let wrap = |body: &[u8]| {
+        let mut o = vec![70, var, 0x5B, 1, body.len() as u8, 0];
+        o.extend_from_slice(body);
+        o
+    };
+    for body in &bodies {
+        out.push(wrap(body));
+        for off in 0..body.len() - 1 {
+            for val in [0xFFFFu16, 0xFFF4, 0xFFF3, 0x8000, 0, body.len() as u16] {
+                let mut m = body.clone();
+                m[off] = val as u8;
+                m[off + 1] = (val >> 8) as u8;
+                if m != *body {
+                    out.push(wrap(&m));
+                }
+            }
+        }
+    }
+    out
+}
+
+const FF_VARS: [u8; 10] = [0, 1, 2, 3, 4, 5, 6, 7, 8, 9];
+
 /// link address of the simulated outstation
 const OUT: u16 = crate::osim::OUTSTATION_ADDR;
 
@@ -208,6 +297,9 @@ impl OFrags {
     /// batches: [0, 256 * corners) one function code each; then one per (gv, qual, corner)
     fn n_func(&self) -> usize {
         256 * self.corners.len()
+    }
+    fn n_product(&self) -> usize {
+        self.gvs.len() * self.quals.len() * self.corners.len()
     }
     fn batch(&self, index: usize) -> (Corner, String, Vec<(u16, Vec<u8>)>) {
         // returns fragments with their link destination; the sequence nibble is set by the driver
@@ -232,7 +324,7 @@ impl OFrags {
                 v.push((OUT, vec![0xC0]));
             }
             (c, format!("function {func}"), v)
-        } else {
+        } else if index < self.n_func() + self.n_product() {
             let i = index - self.n_func();
             let c = self.corners[i % self.corners.len()];
             let i = i / self.corners.len();
@@ -246,6 +338,18 @@ impl OFrags {
                 }
             }
             (c, format!("g{g}v{var} qualifier {q:02X}"), v)
+        } else {
+            let i = index - self.n_func() - self.n_product();
+            let c = self.corners[i % self.corners.len()];
+            let var = FF_VARS[i / self.corners.len()];
+            let funcs: &[u8] = if self.tier == "quick" { &[29, 25] } else { &[29, 25, 26, 27, 28, 30, 1, 2] };
+            let mut v = Vec::new();
+            for objs in free_format_extremes(var) {
+                for f in funcs {
+                    v.push((OUT, app::request(0, *f, &objs)));
+                }
+            }
+            (c, format!("g70v{var} free-format field extremes"), v)
         }
     }
 }
@@ -258,7 +362,7 @@ impl CaseSpace for OFrags {
         true
     }
     fn total(&self) -> usize {
-        self.n_func() + self.gvs.len() * self.quals.len() * self.corners.len()
+        self.n_func() + self.n_product() + FF_VARS.len() * self.corners.len()
     }
     fn run(&self, index: usize, transcript: bool) -> RunResult {
         let mut res = RunResult::default();
@@ -1317,7 +1421,7 @@ impl CaseSpace for MFrags {
         true
     }
     fn total(&self) -> usize {
-        self.n_func() + self.gvs.len() * self.quals.len() * MCORNERS.len()
+        self.n_func() + self.gvs.len() * self.quals.len() * MCORNERS.len() + FF_VARS.len() * MCORNERS.len()
     }
     fn run(&self, index: usize, transcript: bool) -> RunResult {
         let mut res = RunResult::default();
@@ -1340,6 +1444,17 @@ impl CaseSpace for MFrags {
                 frags.push((vec![0xC0, 129, 0], true));
             }
             (MCORNERS[index % MCORNERS.len()], format!("function {func}"))
+        } else if index >= self.n_func() + self.gvs.len() * self.quals.len() * MCORNERS.len() {
+            let i = index - self.n_func() - self.gvs.len() * self.quals.len() * MCORNERS.len();
+            let corner = MCORNERS[i % MCORNERS.len()];
+            let var = FF_VARS[i / MCORNERS.len()];
+            for objs in free_format_extremes(var) {
+                frags.push((app::response(0xC0, fc::RESPONSE, 0, 0, &objs), true));
+                if self.tier != "quick" {
+                    frags.push((app::response(0xF0, fc::UNSOLICITED_RESPONSE, 0, 0, &objs), false));
+                }
+            }
+            (corner, format!("g70v{var} free-format field extremes"))
         } else {
             let i = index - self.n_func();
             let corner = MCORNERS[i % MCORNERS.len()];
